@@ -22,7 +22,7 @@ U.warm()
 PROP = "C36"
 READY = True
 DRIVER = "dm_dfrows"
-LEAN_MODULES = ["DaskModel.Props.C36"]
+LEAN_MODULES = ["DaskModel.Props.C36", "DaskModel.Props.C36xMap"]
 CASE_TIMEOUT_S = 60
 LEVEL_TEXT = (
     "Proved in Lean for every partitioning (any partition count, empty partitions, any divisions): blockwise_rowlocal "
@@ -33,8 +33,11 @@ LEVEL_TEXT = (
     "aligned_binop_den (pandas outer alignment + elementwise op done partition by partition over co-partitioned operands = "
     "the aligned op on the whole series; sorted unique labels). daskPipeline_divisions / daskPipeline_nparts hold by "
     "construction of the model (Blockwise keeps divisions) and are there to be diffed against the real divisions. "
+    "Extension (Props/C36xMap): daskMapCol_den - df.assign(dst=df[src].map(dict)) done partition by partition equals it on the whole "
+    "frame for every partitioning (mapCol_index: index labels and row order kept; mapCell_some_mem / mapCell_missing / mapCell_none: hit, "
+    "missing key -> NaN, NaN -> NaN; mapCol_other_cols; divisions / partition count kept), tied in section mapcol. "
     "Validated by correspondence only (not proved): pandas' kernels on one block (the Lean eval is diffed against pandas "
-    "each run), dtypes, str/dt/cat accessors, map/apply(meta), rename, astype, the repartitioning step of "
+    "each run), dtypes, str/dt/cat accessors, apply(meta) and map with a function, rename, astype, the repartitioning step of "
     "MaybeAlignPartitions, duplicate labels under alignment, filters on reset_index() (section reset).")
 LEVEL_NOTE = ("Trusted: Lean kernel; encoding of numeric frames as integer cells (NaN = none); pandas as the per-block reference "
               "and as the oracle for dtype/accessor behaviour; pyarrow import stub (object-dtype strings only). Known findings "
@@ -579,7 +582,71 @@ def case_reset(ctx, inp):
         ctx.branch("reset-unnamed-index")
 
 
-CASES = {"pipe": case_pipe, "api": case_api, "align": case_align, "reset": case_reset}
+def _map_real(f, inp):
+    d = {int(k): float(v) for k, v in inp["dict"]}
+    src, dst = f"c{inp['src']}", f"c{inp['dst']}"
+    if hasattr(f, "npartitions"):
+        return f.assign(**{dst: f[src].map(d, meta=(src, "float64"))})
+    return f.assign(**{dst: f[src].map(d)})
+
+
+def case_mapcol(ctx, inp):
+    """Series.map(dict) + assign: real dask partitions vs daskMapCol, pandas vs mapCol (Props/C36xMap)."""
+    import pandas as pd
+    df = _mk_df(inp)
+    lens = inp["lens"]
+    b = U.bounds_of(lens)
+    parts_rows = [inp["rows"][b[i]:b[i + 1]] for i in range(len(lens))]
+    sd = [[int(k), int(v)] for k, v in inp["dict"]]
+    expected = _map_real(df, inp)
+    spec = ctx.lean(Sym("mapcolspec"), sd, inp["src"], inp["dst"], rows_sexp(inp["rows"]))
+    ctx.eq("pandas Series.map(dict)+assign vs Lean mapCol", spec, frame_rows(expected))
+    model = ctx.lean(Sym("mapcol"), sd, inp["src"], inp["dst"], [rows_sexp(p) for p in parts_rows])
+    d = U.from_parts(df, lens, known=inp.get("known", True))
+    try:
+        r = _map_real(d, inp)
+        got = U.compute_parts(r)
+        whole = r.compute(scheduler="sync")
+    except Exception as e:
+        ctx.fail(f"map+assign raised {type(e).__name__}", observed=f"{type(e).__name__}: {e}"[:300])
+        ctx.disagree("mapcol partitions (dask raised)", model, type(e).__name__)
+        return
+    exp_cols = [str(c) for c in expected.columns]
+    for label, obj in [("whole result", whole), ("lazy ._meta", r._meta)] + [(f"partition {i}", p) for i, p in enumerate(got)]:
+        if [str(c) for c in obj.columns] != exp_cols:
+            ctx.fail(f"map+assign {label} has columns {[str(c) for c in obj.columns]}, pandas {exp_cols}",
+                     observed=[str(c) for c in obj.columns], expected=exp_cols)
+            return
+    ctx.eq("mapcol partitions", model, [frame_rows(p) for p in got])
+    if r.npartitions != len(lens):
+        ctx.fail("map+assign changed the partition count", observed=r.npartitions, expected=len(lens))
+    if inp.get("known", True) and tuple(r.divisions) != tuple(d.divisions):
+        ctx.fail("map+assign changed the divisions", observed=list(r.divisions), expected=list(d.divisions))
+    try:
+        pd.testing.assert_frame_equal(whole, expected, check_exact=True, check_dtype=bool(len(df)) and all(lens))
+    except AssertionError as e:
+        ctx.fail("map+assign result differs from pandas (values/index/order/names)", observed=str(e)[:300],
+                 expected=frame_rows(expected))
+    keys = {int(k) for k, _ in inp["dict"]}
+    srccells = [r_[1 + inp["src"]] for r_ in inp["rows"]]
+    ctx.branch("mapcol-append" if inp["dst"] == inp["ncols"] else ("mapcol-inplace" if inp["dst"] == inp["src"] else "mapcol-replace-other"))
+    if any(c is not None and c in keys for c in srccells):
+        ctx.branch("mapcol-hit")
+    if any(c is not None and c not in keys for c in srccells):
+        ctx.branch("mapcol-missing-key")
+    if any(c is None for c in srccells):
+        ctx.branch("mapcol-nan-cell")
+    if len(lens) > 1:
+        ctx.branch("mapcol-multipartition")
+    if any(n == 0 for n in lens):
+        ctx.branch("mapcol-empty-partition")
+    if len(set(r_[0] for r_ in inp["rows"])) < len(inp["rows"]):
+        ctx.branch("mapcol-duplicate-index")
+    if not inp.get("known", True):
+        ctx.branch("mapcol-unknown-divisions")
+
+
+CASES = {"pipe": case_pipe, "api": case_api, "align": case_align, "reset": case_reset, "mapcol": case_mapcol}
 
 
 # ------------------------------------------------------------------------------------------------
@@ -753,6 +820,16 @@ def gen_reset(rng):
             "tailsel": rng.random() < 0.3}
 
 
+def gen_mapcol(rng):
+    inp = gen_pipe(rng)
+    del inp["ops"]
+    keys = rng.sample(range(-3, 7), rng.randint(1, 5))
+    inp["dict"] = [[k, rng.randint(-9, 9)] for k in keys]
+    inp["src"] = rng.randrange(inp["ncols"])
+    inp["dst"] = rng.choice([inp["src"], inp["ncols"], rng.randint(0, inp["ncols"])])
+    return inp
+
+
 def generate(ctx):
     rng = ctx.rng
     # fixed edge cases: empty frame, single row, all rows filtered
@@ -768,6 +845,10 @@ def generate(ctx):
         yield "align", gen_align(rng)
     for _ in range(ctx.n(30, 400)):
         yield "reset", gen_reset(rng)
+    yield "mapcol", {"ncols": 1, "rows": [[0, 1], [0, None], [3, 4], [4, 2]], "dtypes": ["float64"], "lens": [1, 0, 3], "known": True,
+                     "dict": [[1, 5], [2, 7]], "src": 0, "dst": 1}
+    for _ in range(ctx.n(60, 1500)):
+        yield "mapcol", gen_mapcol(rng)
 
 
 def search(ctx):
